@@ -11,11 +11,11 @@ from ..runner import Exploration, Failure
 STREAMS = {
     # ops the engine issues are observed by a user-level probe mixin placed first; Lean model runs on
     # the same ops (`runGroup`), the oracle judges every op
-    'ops': dict(classes=feat.CLASSES, probe=True, featureless=False, quick=(16, 700), thorough=(64, 2000)),
+    'ops': dict(classes=feat.CLASSES, probe=True, featureless=False, quick=(16, 500), thorough=(64, 1500)),
     # flat machines without any probe: Lean flat layer (`trigger`) against the public API only
-    'flat': dict(classes=feat.CLASSES[:2], probe=False, featureless=False, quick=(16, 350), thorough=(32, 2000)),
+    'flat': dict(classes=feat.CLASSES[:2], probe=False, featureless=False, quick=(16, 250), thorough=(32, 1500)),
     # decorated vs plain machine on states that carry no feature arguments
-    'diff': dict(classes=feat.CLASSES, probe=False, featureless=True, quick=(16, 150), thorough=(32, 800)),
+    'diff': dict(classes=feat.CLASSES, probe=False, featureless=True, quick=(16, 100), thorough=(32, 600)),
 }
 
 
@@ -31,6 +31,12 @@ def judge(stream, d):
 
     def add(kind, what, details):
         sig = 'C19.' + what
+        # narrow classifier of known finding F-C19-retry-local-source (see known_findings.json): a Retry state
+        # of a hierarchical machine is let in although its limit is used up, and among its consecutive self
+        # re-entries is one through a transition declared inside the parent's state dict
+        if what == 'retry-exact' and details.get('expected') == 'failed' and details.get('outcome') == 'entered' \
+                and details.get('locally_declared') and feat.is_nested(d['cls']):
+            sig = 'C19.retry-local-source'
         fails.append(Failure(kind, what, case, details, signature=sig))
 
     if run.build_error:
@@ -76,12 +82,11 @@ def judge(stream, d):
 
 def correspond(stream, d, run, ans):
     if stream == 'ops':
-        model = feat.dec_ops_answer(ans, d, len(run.steps))
+        model = feat.dec_ops_answer(ans, d, len(feat.trigger_steps(d, run)))
         diff = feat.compare_ops(d, run, model)
         what = 'ops_trace_eq'
     else:
         model = feat.dec_flat_answer(ans, d)
-        model = model[:len(run.steps)] if run.steps and run.steps[-1]['result'].startswith('exc:') else model
         diff = feat.compare_flat(d, run, model)
         what = 'flat_trace_eq'
     if diff is None:
@@ -178,7 +183,8 @@ class C19(runner.Check):
              "is an input (C01-C03 cover it). Timeout is C17's. Order-dependent combinations (failed retry or Error "
              "raise vs Volatile creation) are mirrored by the model, not judged.",
         technique="Lean 4 proof (induction over op histories, invariants) + differential correspondence + Python oracle")
-    theorems = ('TM.C19_tags', 'TM.C19_tags_built', 'TM.C19_caller_lists_unchanged', 'TM.C19_error_iff', 'TM.C19_volatile_fresh', 'TM.C19_volatile_removed',
+    theorems = ('TM.C19_tags', 'TM.C19_tags_mutable', 'TM.C19_tags_built', 'TM.C19_caller_lists_unchanged', 'TM.C19_error_iff',
+                'TM.C19_volatile_kept', 'TM.C19_flat_veto', 'TM.C19_retry_scoped_partial', 'TM.C19_retry_scoped_counterexample', 'TM.C19_volatile_fresh', 'TM.C19_volatile_removed',
                 'TM.C19_volatile_history', 'TM.C19_retry_exact', 'TM.C19_retry_unlimited', 'TM.C19_per_model_frame', 'TM.C19_per_model',
                 'TM.C19_feature_free_unchanged', 'TM.C19_flat_trigger')
     rule = ('random decorated machine classes: every subset of {Tags, Error, Volatile, Retry} in random decorator order '
@@ -186,7 +192,9 @@ class C19(runner.Check):
             'LockedHierarchicalMachine} x 2-4 top states (hierarchical: 0-3 children each, optional initial child) x '
             'random feature arguments per state (tags — occasionally one list object shared by several states —, accepted, hook name, volatile class, retries, on_failure as '
             'callable or model method name) x auto_transitions/ignore_invalid_triggers/send_event x 1-3 models x '
-            'histories of 3-18 triggers with bursts of the same (reflexive) event; non-trivial = at least one completed '
+            'histories of 3-20 steps with bursts of the same (reflexive) event, triggers during which an on_exit callback of the '
+            'state being left raises (with/without on_exception handler), edits of the public tags lists (assign/append/'
+            'remove) between triggers, hierarchical: transitions declared inside a parent state dict; non-trivial = at least one completed '
             'entry and at least one feature effect (retry failure, Error raise, volatile object, tag); distinct = '
             'different description')
     trusted = ('hand-written model lean/Model/Features.lean tied to /repo by trace equality on every generated case',
@@ -210,8 +218,14 @@ class C19(runner.Check):
             "Volatile-decorated machine gets the default hook 'scope', argument-free or not; 'all other behaviour "
             "unchanged' is compared on callbacks, results and states for machines without dead-end states",
             "on_failure callbacks are recorders (callable or model method name); on_failure that triggers a further "
-            "event is not generated; Timeout belongs to C17; no parallel states, no queued machines, transitions "
-            "declared globally",
+            "event is not generated; Timeout belongs to C17; no parallel states, no queued machines; transitions are "
+            "declared on the machine or inside a parent's state dict (own event names, two nesting levels)",
+            "a Volatile state's object is judged at op level: a completed entry binds a fresh one, a completed exit "
+            "removes it, an exit aborted by a raising on_exit callback leaves every hook attribute as it was; on "
+            "hierarchical machines only the first exit of a trigger is made to raise (a later one leaves the engine "
+            "half-way, which is C04's subject)",
+            "edits of state.tags follow Python's aliasing: states that were handed one list object and were not declared "
+            "accepted share it, so an in-place edit shows in all of them",
         ]
 
     def explore(self, tier, seed):
